@@ -18,6 +18,14 @@
 import contextlib
 
 
+# Attributes that belong to the proxy object itself rather than to the exception
+# it stands for.
+_PROXY_OWN_ATTRIBUTES = frozenset([
+    '__class__', '__dict__', '__traceback__', '__cause__', '__context__',
+    '__suppress_context__', 'with_traceback', 'add_note'
+])
+
+
 def augment_exception_message_and_reraise(exception, message):
   """Reraises `exception`, appending `message` to its string representation."""
 
@@ -25,19 +33,35 @@ def augment_exception_message_and_reraise(exception, message):
     """Acts as a proxy for an exception with an augmented message."""
     __module__ = type(exception).__module__
 
-    def __init__(self):
+    def __init__(self, *args, **kwargs):
       pass
 
-    def __getattr__(self, attr_name):
-      return getattr(exception, attr_name)
+    def __getattribute__(self, attr_name):
+      # Read everything from the original exception, including data that
+      # builtin exceptions keep outside the instance dict (`args`, `errno`,
+      # `filename`, `value`, `name`, ...), which would otherwise be found,
+      # unset, on the proxy itself.
+      if attr_name not in _PROXY_OWN_ATTRIBUTES:
+        try:
+          return getattr(exception, attr_name)
+        except AttributeError:
+          pass
+      return super().__getattribute__(attr_name)
 
     def __str__(self):
       return str(exception) + message
 
   ExceptionProxy.__name__ = type(exception).__name__
-
-  proxy = ExceptionProxy()
   ExceptionProxy.__qualname__ = type(exception).__qualname__
+
+  try:
+    # Bypass `__init__`, but hand the constructor arguments to `__new__`, which
+    # some exception classes (e.g. exception groups) require.
+    proxy = ExceptionProxy.__new__(ExceptionProxy, *exception.args)
+  except TypeError:
+    # The class cannot be instantiated from `args`; the message can't be
+    # augmented, but the exception itself must not be replaced by this failure.
+    raise exception  # pylint: disable=raise-missing-from
   raise proxy.with_traceback(exception.__traceback__)
 
 
